@@ -861,6 +861,8 @@ def option_sets(draw, mode):
     if mode == "c15":
         o["dry_run"] = draw(st.integers(0, 9)) < 4
         o["deep"] = draw(st.integers(0, 3)) == 0
+        if o["deep"] and draw(st.booleans()):
+            o["recursive"] = True  # content comparison must also hold below the top level
         if level_project:
             o["parallel"] = draw(st.sampled_from([False, False, 2, True]))
     elif mode == "c14":
